@@ -66,22 +66,35 @@ def failing_line(res):
     return line or (res["reached"] or 1)
 
 
+VARIANTS = [("f2+f2c", "Trace_Payments_conf_fixed2.cfg"),   # both repairs (EnforceClientCUsUsageInEpoch, CuSum guard)
+            ("f2", "Trace_Payments_conf_fixed.cfg"),            # EnforceClientCUsUsageInEpoch repaired only
+            ("asis", "Trace_Payments_conf.cfg")]                # the code as found
+
+
 def conf(ctx, tpath, tag, match_tracked=False):
-    """Conf-mode pass. Returns (variant, reached_asis, reached_fixed): variant is 'asis' / 'fixed' when
-    the whole trace is a behaviour of that transcription, else None."""
+    """Conf-mode pass. Returns (variant, reached): variant names the transcription of which the whole
+    trace is a behaviour ('f2+f2c' / 'f2' / 'asis'), else None; reached = lines accepted per variant."""
     env = {"VERIF_MODE": "conf", "VERIF_MATCH_TRACKED": "1" if match_tracked else "0"}
-    r1 = vlib.tlc_trace(ctx, "Trace_Payments", "Trace_Payments_conf.cfg", tpath, tag=tag + "_asis", env=env, timeout=1800)
-    if r1["accepted"]:
-        return "asis", r1["reached"], None
-    r2 = vlib.tlc_trace(ctx, "Trace_Payments", "Trace_Payments_conf_fixed.cfg", tpath, tag=tag + "_fixed", env=env, timeout=1800)
-    if r2["accepted"]:
-        return "fixed", r1["reached"], r2["reached"]
-    return None, r1["reached"], r2["reached"]
+    reached = {}
+    for name, cfg in VARIANTS:
+        r = vlib.tlc_trace(ctx, "Trace_Payments", cfg, tpath, tag="%s_%s" % (tag, name.replace("+", "_")), env=env, timeout=1800)
+        reached[name] = r["reached"]
+        if r["accepted"]:
+            return name, reached
+    return None, reached
+
+
+def note_conf(ctx, tpath, tag, nrows, match_tracked=False):
+    variant, reached = conf(ctx, tpath, tag, match_tracked)
+    ctx.cov["conforms_to"] = variant
+    if variant is None:
+        ctx.drift.append("real chain is a behaviour of no transcription in Payments.tla: lines accepted %s of %d" % (reached, nrows))
+    return variant
 
 
 def coverage(rows):
     c = {"tx": 0, "tx_ok": 0, "relays": 0, "relays_acc": 0, "soft": 0, "hard": 0, "epoch": 0, "block": 0, "down": 0,
-         "badge_acc": 0, "capped": 0, "multi_ok": 0, "expired_mem": 0}
+         "badge_acc": 0, "capped": 0, "multi_ok": 0, "expired_mem": 0, "huge": 0, "huge_acc": 0}
     for r in rows:
         ev = r["ev"]
         if ev == "pay":
@@ -94,6 +107,9 @@ def coverage(rows):
             elif r["err"] in ("soft", "hard"):
                 c[r["err"]] += 1
             for x in r["rs"]:
+                if x["cu"] >= 1000000:
+                    c["huge"] += 1
+                    c["huge_acc"] += 1 if x["acc"] else 0
                 if x["acc"]:
                     c["relays_acc"] += 1
                     if x["b"]["u"] != "-" and x["b"]["u"] == x["sg"]:
